@@ -202,7 +202,9 @@ class MyPyAstVisitor:
             ):
                 inherits_from_exception = True
 
-            if hasattr(superclass, "fullname"):
+            # Base expressions the type checker cannot resolve have no full name (a member of a library that is not
+            # installed: "import lib as l; class X(l.Base)", or "Other.__class__"); like call expressions they are skipped
+            if getattr(superclass, "fullname", None):
                 superclass_qname = superclass.fullname
                 superclass_name = superclass_qname.split(".")[-1]
 
